@@ -50,11 +50,14 @@ class EventBase(ObjectWithFields):
         ...
 
     @staticmethod
-    def int_or_default_from_string(default: int) -> Callable[[str], int]:
+    def int_or_default_from_string(default: int,
+                                   minimum: int | None = None) -> Callable[[str], int]:
         def int_or_default(value: str):
             value = DashOption.int_or_none_from_string(value)
             if value is None:
                 return default
+            if minimum is not None and value < minimum:
+                raise ValueError(f'value must be at least {minimum}')
             return value
         return int_or_default
 
@@ -80,7 +83,10 @@ class EventBase(ObjectWithFields):
                 input_type = 'checkbox'
                 cgi_choices = (str(dflt), str(not dflt))
             elif isinstance(dflt, int):
-                from_string = cls.int_or_default_from_string(dflt)
+                # a repeat interval or timescale of zero (or less) would make
+                # event generation loop forever or divide by zero
+                minimum = 1 if key in {'interval', 'timescale'} else None
+                from_string = cls.int_or_default_from_string(dflt, minimum)
                 input_type = 'number'
                 cgi_type = '<int>'
                 cgi_choices = tuple([str(dflt)])
